@@ -245,3 +245,9 @@ def run(ctx: Ctx, rep: Report, tier: str):
     from rules.C06 import C06
     alias(rep, ["C06.R5"], "C07.R7", "what a restart reads back is complete: the loader re-indexes every stored entry on both sides and re-queues exactly the entries whose "
           "persisted `changed` flag is set (C06.R5) - work that was recorded before the crash is neither lost nor invented", 4, lambda: C06(ctx, rep).r5())
+    _c06 = C06(ctx, rep)
+    alias(rep, ["C06.R4"], "C07.R8", "a crash during the start-up walk repeats the walk: the walk marker is written only after the walk loop completed (C06.R4)", 2,
+          lambda: _c06.r4())
+    from rules.C10 import C10 as _C10
+    alias(rep, ["C10.T7"], "C07.R9", "a download recorded before a crash is reused after the restart only for the content it came from: the temp-file name is a function of "
+          "the side's current hash and path (C10.T7)", 2, lambda: _C10(ctx, rep).t7())
